@@ -9,10 +9,10 @@ open XsVerif.Conv
 /-- what `element_decode` may be given for a valid element (one level) -/
 structure WF1 {α : Type} (m : Mapper) (useNs : Bool) (f : Facts) (hd : Hd) (its : List (Item α)) : Prop where
   tag : m.um (m.mp hd.tag) = hd.tag
-  attrsUm : ∀ kv ∈ hd.attrs, m.umA (m.mp kv.1) = kv.1
+  attrsUm : ∀ kv ∈ hd.attrs, m.umA (m.mpA kv.1) = kv.1
   attrsNodup : ((attrPairs m hd).map (·.1)).Nodup
   attrsNodup' : (hd.attrs.map (·.1)).Nodup
-  attrsNotXmlns : ∀ kv ∈ hd.attrs, isXmlnsKey (m.mp kv.1) = false
+  attrsNotXmlns : ∀ kv ∈ hd.attrs, isXmlnsKey (m.mpA kv.1) = false
   xmlnsNodup : ((xmlnsEntries "" hd.xmlns).map (·.1)).Nodup
   textOk : ∀ t, hd.text = some t → t.isMap = false ∧ t.isNull = false
   textStr : ∀ t, hd.text = some t → f.simple = false → t.isSeq = false
